@@ -43,6 +43,37 @@ class Result:
     pass
 
 
+# what the target returns: the helper passes it back unchanged, whatever
+# it is (identity is compared)
+RESULT_KINDS = ['obj', 'list1', 'tuple1', 'list0', 'none', 'dict', 'list2',
+                'nested1']
+
+
+def make_result(kind):
+    return {'obj': Result(), 'list1': ['hit'], 'tuple1': ('hit',),
+            'list0': [], 'none': None, 'dict': {'a': 1},
+            'list2': ['a', 'b'], 'nested1': [['hit']]}[kind]
+
+
+def follow_up(ns, m, log, registered, loop):
+    """The namespace object is used again, namespace omitted: the earlier
+    call (whatever it was given) must not have changed what "omitted"
+    means."""
+    fm = 'send' if m == 'emit' else 'emit'
+    del log[:]
+    try:
+        r = getattr(ns, fm)('follow')
+        if inspect.isawaitable(r):
+            loop.run_until_complete(r)
+    except Exception as e:
+        return '?EXC:' + type(e).__name__
+    calls = [c for c in log if c[0] == fm]
+    if len(calls) != 1:
+        return '?calls:%d' % len(calls)
+    v = calls[0][1].get('namespace')
+    return 'REGISTERED' if v == registered else '?' + repr(v)[:30]
+
+
 def make_stub(target_cls, helpers, is_async, log, result):
     """An object with the target's real signatures that records the call
     bound to parameter names."""
@@ -84,7 +115,8 @@ def build_cases(seed, tier):
                     for falsy in (False, True):
                         registered = '/reg%d' % rng.randrange(1000)
                         log = []
-                        result = Result()
+                        rkind = RESULT_KINDS[len(cases) % len(RESULT_KINDS)]
+                        result = make_result(rkind)
                         stub = make_stub(target_cls, helpers, is_async, log,
                                          result)
                         ns = ns_cls(registered)
@@ -129,8 +161,13 @@ def build_cases(seed, tier):
                                 else:
                                     observed[n] = 'default'
                         other = [c for c in log if c[0] != m]
+                        attr = 'REGISTERED' if ns.namespace == registered \
+                            else '?' + repr(ns.namespace)[:30]
+                        follow = follow_up(ns, m, log, registered, loop)
                         cases.append({
                             'cls': cname, 'method': m, 'mode': mode,
+                            'result_kind': rkind, 'ns_attr': attr,
+                            'follow': follow,
                             'falsy': falsy, 'optional': hopt,
                             'target_params': treq + topt,
                             'given': {n: toks[n] for n in values},
@@ -195,8 +232,12 @@ def positional_cases(rng, loop):
                         else:
                             observed[n] = 'default'
                 other = [c for c in log if c[0] != m]
+                attr = 'REGISTERED' if ns.namespace == registered \
+                    else '?' + repr(ns.namespace)[:30]
+                follow = follow_up(ns, m, log, registered, loop)
                 cases.append({
                     'cls': cname, 'method': m, 'mode': 'allpositional',
+                    'result_kind': 'obj', 'ns_attr': attr, 'follow': follow,
                     'falsy': False, 'optional': hopt,
                     'target_params': torder,
                     # what target(*vals) would bind
